@@ -3,6 +3,9 @@ from kernel_main import main, run  # noqa
 
 
 def extra(report, fam, tier, seed):
+    from contracts import subgraph_order
+
+    report.guarded("subgraph order", subgraph_order.run, report, fam)
     import fragments
 
     report.guarded("fragment triples", fragments.run, report, 4 if tier == "quick" else 5)
@@ -16,7 +19,7 @@ def check(argv):
     return run(
         "C02", argv, analyses=[], extra=extra,
         static_note="",
-        explanation="Kind B (output set-up and hand-over): AppendOutput.write_declarations allocates every pos/crd/vals array with its capacity (exact where the levels above are dense), pos[0] = 0 and cursors 0; AppendOutput.write_cleanup hands back pos/crd of exactly the structure's size and vals covering every stored position - per mode vector, all dimensions, counts and capacities. Kind B (fragments): write_crd_assembly stores the coordinate at the cursor and preserves the prefix, write_pos_assembly writes pos[parent+1] = cursor and nothing else, write_pos_allocation leaves room for the next block - proved for all states and capacities on the fragments the real emitters produce for every mode vector up to order 4 (5 thorough). Kind C: the output of every evaluate kernel of the family, read back from the exact heap blocks of the reference machine, is checked "
+        explanation="Kind B (merge-loop order, per problem): generate_subgraphs lists every subgraph after every subgraph it is a simplification of, the one without sparse operands last. Kind B (output set-up and hand-over): AppendOutput.write_declarations allocates every pos/crd/vals array with its capacity (exact where the levels above are dense), pos[0] = 0 and cursors 0; AppendOutput.write_cleanup hands back pos/crd of exactly the structure's size and vals covering every stored position - per mode vector, all dimensions, counts and capacities. Kind B (fragments): write_crd_assembly stores the coordinate at the cursor and preserves the prefix, write_pos_assembly writes pos[parent+1] = cursor and nothing else, write_pos_allocation leaves room for the next block - proved for all states and capacities on the fragments the real emitters produce for every mode vector up to order 4 (5 thorough). Kind C: the output of every evaluate kernel of the family, read back from the exact heap blocks of the reference machine, is checked "
                     "against wf_taco written from the property statement (pos[0]=0, monotone, exactly parent positions + 1 entries; crd strictly increasing per "
                     "segment and in range, exactly pos[-1] entries; vals covers every stored position), with initial capacities 1.. so growth and shrink paths run.",
     )
